@@ -137,3 +137,209 @@ variant('t-channel-renamed-flags', ['C07', 'C10', 'C08', 'C09'], H + 'request_ca
 variant('t-streamcontrol-del', ['C07', 'C10', 'C08', 'C09', 'C11'], 'rsocket/stream_control.py',
         "        self._streams.pop(stream_id, None)\n",
         "        if stream_id in self._streams:\n            self._streams.pop(stream_id)\n", kind='twin')
+
+# ----------------------------------------------------------------------------------------------- C08
+variant('b-rrresp-sends-cancel', ['C08'], H + 'request_response_responder.py',
+        """        if isinstance(frame, CancelFrame):
+            self.future.cancel()
+""", """        if isinstance(frame, CancelFrame):
+            self.future.cancel()
+            self.send_cancel()
+""", ('C08.a', 'RequestResponseResponder'))
+variant('b-ssreq-raises-on-unknown', ['C08'], H + 'request_stream_requester.py',
+        """            self._subscriber.on_error(error_frame_to_exception(frame))
+            self._finish_stream()
+
+    def _send""", """            self._subscriber.on_error(error_frame_to_exception(frame))
+            self._finish_stream()
+        else:
+            raise RuntimeError('unexpected frame')
+
+    def _send""", ('C08.b', 'RequestStreamRequester.frame_received'))
+variant('b-keepalive-on-stream', ['C08'], 'rsocket/frame_builders.py',
+        """    frame = KeepAliveFrame()
+    frame.flags_respond = True
+""", """    frame = KeepAliveFrame()
+    frame.stream_id = 1
+    frame.flags_respond = True
+""", ('C08.c', 'KeepAliveFrame'))
+variant('b-initial-n-zero-allowed', ['C08'], 'rsocket/streams/stream_handler.py',
+        "        if n <= 0:", "        if n < 0:", ('C08.d', 'initial_request_n'))
+variant('b-priority-for-all', ['C08', 'C05'], 'rsocket/rsocket_base.py',
+        """    def send_frame(self, frame: Frame):
+        self._send_queue.put_nowait(frame)
+""", """    def send_frame(self, frame: Frame):
+        self.send_priority_frame(frame)
+""", ('C', ''))
+variant('b-second-setup-on-lease', ['C08'], 'rsocket/rsocket_base.py',
+        """        if self._lease_publisher is not None:
+            self._lease_publisher.subscribe(self.LeaseSubscriber(self))
+""", """        if self._lease_publisher is not None:
+            self.send_frame(self._create_setup_frame(self._data_encoding, self._metadata_encoding))
+            self._lease_publisher.subscribe(self.LeaseSubscriber(self))
+""", ('C08.e', 'built only on connect'))
+
+# ----------------------------------------------------------------------------------------------- C09
+variant('b-ssreq-cancel-twice', ['C09'], H + 'request_stream_requester.py',
+        """    def cancel(self):
+        self.send_cancel()
+        self._finish_stream()
+""", """    def cancel(self):
+        self.send_cancel()
+        self._finish_stream()
+        self.send_cancel()
+""", ('C09.a', 'RequestStreamRequester.cancel'))
+variant('b-ssreq-cancel-nofinish', ['C09', 'C10'], H + 'request_stream_requester.py',
+        """    def cancel(self):
+        self.send_cancel()
+        self._finish_stream()
+""", """    def cancel(self):
+        self.send_cancel()
+""", ('C', 'RequestStreamRequester.cancel'))
+variant('b-rrreq-cancel-after-terminal', ['C09'], H + 'request_response_requester.py',
+        "        if future.cancelled() and not self._terminated:", "        if future.cancelled():",
+        ('C09.a', 'no CANCEL after the terminal frame'))
+variant('b-rrreq-callback-always-cancels', ['C09'], H + 'request_response_requester.py',
+        "        if future.cancelled() and not self._terminated:", "        if not self._terminated:",
+        ('C09.a', 'CANCEL iff cancelled'))
+variant('b-ssresp-cancel-keeps-producer', ['C09'], H + 'request_stream_responder.py',
+        """        elif isinstance(frame, CancelFrame):
+            self.subscriber.subscription.cancel()
+            self._finish_stream()
+""", """        elif isinstance(frame, CancelFrame):
+            self._finish_stream()
+""", ('C09.b', 'RequestStreamResponder.frame_received/CancelFrame'))
+variant('b-rrresp-cancel-keeps-future', ['C09'], H + 'request_response_responder.py',
+        """        if isinstance(frame, CancelFrame):
+            self.future.cancel()
+            self._finish_stream()
+""", """        if isinstance(frame, CancelFrame):
+            self._finish_stream()
+""", ('C09.b', 'RequestResponseResponder.frame_received/CancelFrame'))
+variant('b-generator-lazy-attr', ['C09'], 'rsocket/streams/stream_from_generator.py',
+        "        self._generator = None\n", "", ('C09.c', 'StreamFromGenerator.cancel'))
+variant('b-generator-cancel-skips-n-feeder', ['C09'], 'rsocket/streams/stream_from_generator.py',
+        """    def _cancel_feeders(self):
+        self._cancel_payload_feeder()
+        self._cancel_n_feeder()
+""", """    def _cancel_feeders(self):
+        self._cancel_payload_feeder()
+""", ('C09.d', '_n_feeder'))
+variant('b-generator-cancel-no-callback', ['C09'], 'rsocket/streams/stream_from_generator.py',
+        """        if self._on_cancel is not None:
+            self._on_cancel()
+""", "", ('C09.d', '_on_cancel'))
+variant('b-sender-unguarded-sent-future', ['C09'], 'rsocket/rsocket_base.py',
+        "if frame.sent_future is not None and not frame.sent_future.done():\n                            frame.sent_future.set_result(None)",
+        "if frame.sent_future is not None:\n                            frame.sent_future.set_result(None)",
+        ('C09.e', '_sender'))
+variant('b-channel-cancel-unguarded', ['C09'], H + 'request_cahnnel_common.py',
+        """            if self.subscriber.subscription is not None:
+                self.subscriber.subscription.cancel()
+            self.mark_completed_and_finish(sent=True)""", """            self.subscriber.subscription.cancel()
+            self.mark_completed_and_finish(sent=True)""", ('C09.g', 'CancelFrame'))
+
+# ----------------------------------------------------------------------------------------------- C11
+variant('b-receiver-transport-error-returns', ['C11'], 'rsocket/rsocket_base.py',
+        """        except RSocketTransportError:
+            pass
+        except Exception:
+            logger().error('%s: Unknown error', self._log_identifier(), exc_info=True)
+            raise
+
+        await self._on_connection_closed()""", """        except RSocketTransportError:
+            return
+        except Exception:
+            logger().error('%s: Unknown error', self._log_identifier(), exc_info=True)
+            raise
+
+        await self._on_connection_closed()""", ('C11.a', 'transport'))
+variant('b-receiver-cancel-skips-close', ['C11'], 'rsocket/rsocket_base.py',
+        """        except asyncio.CancelledError:
+            logger().debug('%s: Asyncio task canceled: receiver', self._log_identifier())
+        except RSocketTransportError:
+            pass""", """        except asyncio.CancelledError:
+            logger().debug('%s: Asyncio task canceled: receiver', self._log_identifier())
+            return
+        except RSocketTransportError:
+            pass""", ('C11.a', 'cancel'))
+variant('b-stopall-no-isolation', ['C11'], 'rsocket/stream_control.py',
+        """            try:
+                if isinstance(stream, Disposable):
+                    stream.dispose()
+            except Exception:
+                logger().error('Error while disposing stream %s', stream_id, exc_info=True)
+""", """            if isinstance(stream, Disposable):
+                stream.dispose()
+""", ('C11.b', 'loop body'))
+variant('b-close-sequence-no-finally', ['C11'], 'rsocket/rsocket_base.py',
+        """            try:
+                await self._handler.on_close(self)
+            finally:
+                await self._stop_tasks()""", """            await self._handler.on_close(self)
+            await self._stop_tasks()""", ('C11.b', 'tasks stopped'))
+variant('b-synthetic-error-canceled', ['C11'], 'rsocket/rsocket_base.py',
+        "    def stop_all_streams(self, error_code=ErrorCode.CONNECTION_ERROR, data=b''):",
+        "    def stop_all_streams(self, error_code=ErrorCode.CANCELED, data=b''):", ('C11.c', 'synthetic error code'))
+variant('b-stopall-only-requesters', ['C11'], 'rsocket/stream_control.py',
+        """            try:
+                if isinstance(stream, Disposable):
+                    stream.dispose()
+            except Exception:
+                logger().error('Error while disposing stream %s', stream_id, exc_info=True)
+
+""", "", ('C11.c', 'dispatch on Requester and Disposable'))
+variant('b-dispose-noop', ['C11'], H + 'request_response_responder.py',
+        """    def dispose(self):
+        self.future.cancel()
+""", """    def dispose(self):
+        pass
+""", ('C11.c', 'RequestResponseResponder.dispose'))
+variant('b-keepalive-task-not-cancelled', ['C11'], 'rsocket/rsocket_client.py',
+        """        await super()._stop_tasks()
+        await cancel_if_task_exists(self._keepalive_task)
+        self._keepalive_task = None
+""", """        await super()._stop_tasks()
+        self._keepalive_task = None
+""", ('C11.e', '_keepalive_task'))
+variant('b-tcp-drain-unwrapped', ['C11'], 'rsocket/transports/tcp.py',
+        """        with wrap_transport_exception():
+            self._writer.write(serialize_prefix_with_frame_size_header(frame))
+            frame.write_data_metadata(self._writer.write)
+            await self._writer.drain()
+""", """        with wrap_transport_exception():
+            self._writer.write(serialize_prefix_with_frame_size_header(frame))
+            frame.write_data_metadata(self._writer.write)
+        await self._writer.drain()
+""", ('C11.f', 'drain'))
+variant('b-close-does-not-drain-lease-queue', ['C11'], 'rsocket/rsocket_base.py',
+        "        for queue in (self._send_queue, self._request_queue):", "        for queue in (self._send_queue,):",
+        ('C11.g', 'lease hold queue'))
+variant('b-sender-cancel-leaves-future', ['C11'], 'rsocket/rsocket_base.py',
+        "                        except BaseException:\n                            self._fail_sent_future(frame)",
+        "                        except Exception:\n                            self._fail_sent_future(frame)",
+        ('C11.g', 'write ends by cancel'))
+variant('b-second-on-close', ['C11'], 'rsocket/rsocket_client.py',
+        """        await super().close()
+
+    async def __aenter__""", """        await super().close()
+        await self._handler.on_close(self)
+
+    async def __aenter__""", ('C11.d', 'on_close / single call site'))
+variant('t-close-sequence-flat-try', ['C11'], 'rsocket/rsocket_base.py',
+        """        try:
+            self.stop_all_streams()
+            self._fail_unsent_frames()
+        finally:
+            try:
+                await self._handler.on_close(self)
+            finally:
+                await self._stop_tasks()""", """        try:
+            try:
+                self.stop_all_streams()
+                self._fail_unsent_frames()
+            except Exception:
+                logger().error('close sequence', exc_info=True)
+            await self._handler.on_close(self)
+        finally:
+            await self._stop_tasks()""", kind='twin')
